@@ -45,7 +45,8 @@ COQ_FLAGS = ["-Q", "theories", "FV", "-Q", "proofs", "FVP", "-Q", "properties", 
 
 FORBIDDEN = re.compile(
     r"\b(Admitted|admit|Axiom|Axioms|Parameter|Parameters|Conjecture|Conjectures|Hypothesis|Hypotheses|Variable|Variables"
-    r"|Unset\s+Guard|bypass_check|Admit\s+Obligations|type-in-type|impredicative-set|native_compute)\b"
+    r"|Unset\s+Guard|Unset\s+Positivity|Unset\s+Universe|Unset\s+Elimination|Set\s+Type\s+In\s+Type"
+    r"|bypass_check|Admit\s+Obligations|type-in-type|impredicative-set|native_compute)\b"
 )
 SECTION_OK = re.compile(r"\b(Variable|Variables|Hypothesis|Hypotheses)\b")
 
@@ -154,13 +155,12 @@ def audit_property_file(pid):
             cur = []
             blocks.append(cur)
         elif cur is not None:
-            if line.startswith(" ") or line.strip() == "":
-                if re.match(r"^\s*\S+\s*:", line):
-                    cur.append(line.strip())
-            elif re.match(r"^\S+\s*:", line):
+            # everything Coq lists under "Axioms:" counts: "name : type" entries (continuation lines of a type are
+            # indented) as well as sentences such as "x is assumed to be positive." / "x relies on an unsafe hierarchy."
+            if line.strip() == "":
+                continue
+            if re.match(r"^\S+\s*:", line) or not line.startswith(" "):
                 cur.append(line.strip())
-            else:
-                cur = None
     assumptions = {}
     for name, blk in zip(printed, blocks):
         assumptions[name] = blk
@@ -364,6 +364,14 @@ def load_known(pid):
 # ----------------------------------------------------------------------------
 # main driver for one property
 # ----------------------------------------------------------------------------
+def _monitor(mod, case, obs):
+    """the property monitor; a monitor that raises is itself a failure of the check (never a traceback)"""
+    try:
+        return mod.monitor(case, obs)
+    except Exception as e:  # noqa
+        return f"monitor raised {type(e).__name__}: {e}"
+
+
 def canonical_hash(x):
     return hashlib.sha1(json.dumps(x, sort_keys=True, default=str).encode()).hexdigest()
 
@@ -402,7 +410,11 @@ def check_property(mod, tier, seed, replay=None):
 
     ok_build, build_out = ensure_built(pid)
     bad = grep_gate(pid)
-    theorems, assumptions, ok_audit, audit_out = audit_property_file(pid) if ok_build else ([], {}, False, build_out)
+    if ok_build:
+        theorems, assumptions, ok_audit, audit_out = audit_property_file(pid)
+    else:
+        src = (COQ / "properties" / f"{pid}.v").read_text() if (COQ / "properties" / f"{pid}.v").exists() else ""
+        theorems, assumptions, ok_audit, audit_out = re.findall(r"^\s*Theorem\s+(\w+)", src, flags=re.M), {}, False, build_out
     allowed_axioms = set(getattr(mod, "ALLOWED_AXIOMS", []))
     discharged = 0
     axioms_seen = set()
@@ -423,7 +435,15 @@ def check_property(mod, tier, seed, replay=None):
 
     if replay:
         data = json.loads(Path(replay).read_text())
-        case = data["case"]
+        case = data.get("case")
+        if case is None:
+            # a proof-broken replay names theorems, not an input: report the state of the proofs on this tree
+            print("replay file without a case (%s): %s" % (data.get("kind"), data.get("relation_or_theorem")))
+            print("build:", "ok" if ok_build else "FAILED", "| forbidden constructs:", bad or "none",
+                  "| theorems closed: %d/%d" % (discharged, len(theorems)))
+            if not proof_ok:
+                print((audit_out or build_out)[-1500:])
+            return 0 if proof_ok else 1
         obs = _single_impl(mod, case)
         print("case:", json.dumps(case, default=str))
         print("implementation observation:", json.dumps(obs, default=str))
@@ -433,7 +453,7 @@ def check_property(mod, tier, seed, replay=None):
             print("correspondence:", "MISMATCH" if mm or errs else "agree")
         else:
             mm, errs = [], []
-        fail = mod.monitor(case, obs)
+        fail = _monitor(mod, case, obs)
         print("property predicate on implementation trace:", fail or "holds")
         return 1 if (fail or mm or errs) else 0
 
@@ -451,8 +471,11 @@ def check_property(mod, tier, seed, replay=None):
     def is_known(case, obs, failure):
         for e in known:
             f = classifiers.get(e.get("classifier"))
-            if f and f(case, obs, failure):
-                return e
+            try:
+                if f and f(case, obs, failure):
+                    return e
+            except Exception:  # noqa: a classifier that cannot read the observation does not recognise it
+                continue
         return None
 
     mon_fail = []
@@ -460,10 +483,7 @@ def check_property(mod, tier, seed, replay=None):
     for i, (c, o) in enumerate(zip(cases, obss)):
         if i in harness_errors:
             continue
-        try:
-            f = mod.monitor(c, o)
-        except Exception as e:  # monitor bug: surfaced as a failure of the check itself
-            f = f"monitor raised {type(e).__name__}: {e}"
+        f = _monitor(mod, c, o)
         if f:
             mon_fail.append((i, f))
         try:
@@ -490,7 +510,7 @@ def check_property(mod, tier, seed, replay=None):
         p = write_replay(pid, "counterexample", {
             "property": pid, "kind": "counterexample", "seed": seed, "case": case_s,
             "impl_obs": obs_s, "model_obs": model_obs_text(mod, case_s, obs_s) if ok_build else None,
-            "predicate_verdict": mod.monitor(case_s, obs_s), "shrunk_from": cases[i] if case_s != cases[i] else None,
+            "predicate_verdict": _monitor(mod, case_s, obs_s), "shrunk_from": cases[i] if case_s != cases[i] else None,
             "correspondence_mismatch": i in mism,
         })
         violations.append((p, ""))
@@ -518,7 +538,7 @@ def check_property(mod, tier, seed, replay=None):
                 for c, o in zip(cs, os_):
                     if isinstance(o, dict) and "harness_error" in o:
                         continue
-                    f = mod.monitor(c, o)
+                    f = _monitor(mod, c, o)
                     if f and not is_known(c, o, f):
                         found = (c, o, f)
                         break
@@ -530,18 +550,22 @@ def check_property(mod, tier, seed, replay=None):
             p = write_replay(pid, "counterexample", {
                 "property": pid, "kind": "counterexample", "seed": seed, "case": c, "impl_obs": o,
                 "model_obs": model_obs_text(mod, c, o) if ok_build else None,
-                "predicate_verdict": mod.monitor(c, o), "found_by": "search after broken correspondence/proof",
+                "predicate_verdict": _monitor(mod, c, o), "found_by": "search after broken correspondence/proof",
             })
             violations.append((p, ""))
         else:
             if unexplained:
-                for i in unexplained[:3]:
+                written = 0
+                for i in unexplained:
                     e = is_known(cases[i], obss[i], "correspondence")
                     if e:
                         if e["id"] not in reported_known:
                             reported_known.add(e["id"])
                             known_lines.append(f"KNOWN-FINDING: property={pid} {e['id']}: {e['what_fails']}")
                         continue
+                    if written >= 3:
+                        continue
+                    written += 1
                     c, o = shrink(mod, cases[i], obss[i], by_mismatch=True) if i not in harness_errors else (cases[i], obss[i])
                     p = write_replay(pid, "correspondence-broken", {
                         "property": pid, "kind": "correspondence-broken",
@@ -551,7 +575,8 @@ def check_property(mod, tier, seed, replay=None):
                         "predicate_verdict": None, "mismatching_cases_total": len(unexplained),
                     })
                     violations.append((p, " no-failing-input-found"))
-            elif structural_break:
+            if structural_break and not violations:
+                # never masked by known findings among the mismatches: a proof or a case file that does not check
                 p = write_replay(pid, "proof-broken", {
                     "property": pid, "kind": "proof-broken", "case": None,
                     "relation_or_theorem": "properties/%s.v: %s" % (pid, ", ".join(theorems) or "(build failed)"),
@@ -565,7 +590,10 @@ def check_property(mod, tier, seed, replay=None):
     samples = []
     for i in list(range(min(2, len(cases)))) + ([len(cases) - 1] if len(cases) > 2 else []):
         samples.append({"case": cases[i], "impl_obs": obss[i]})
-    dist = mod.distribution(cases, obss) if hasattr(mod, "distribution") else {}
+    try:
+        dist = mod.distribution(cases, obss) if hasattr(mod, "distribution") else {}
+    except Exception as e:  # noqa
+        dist = {"distribution_error": f"{type(e).__name__}: {e}"}
     ev = {
         "property_id": pid,
         "tier": tier,
@@ -598,8 +626,17 @@ def check_property(mod, tier, seed, replay=None):
         "wall_s": round(wall, 2),
         "violations": len(violations),
     }
+    if discharged == 0:
+        # the proof-level keys require at least one discharged obligation: report the count under another name and let
+        # the exploration-style counts stand (the run is a failed one: see violations)
+        ev["coverage"].pop("discharged")
+        ev["coverage"]["obligations_discharged"] = 0
+        ev["coverage"]["explanation"] = "the Coq development did not build / no theorem was accepted on this run"
     if hasattr(mod, "extra_evidence"):
-        ev["coverage"].update(mod.extra_evidence(cases, obss))
+        try:
+            ev["coverage"].update(mod.extra_evidence(cases, obss))
+        except Exception as e:  # noqa
+            ev["coverage"]["extra_evidence_error"] = f"{type(e).__name__}: {e}"
     # evidence belongs to /repo itself: runs against a scratch copy (mutation experiments) write elsewhere
     evdir = EVIDENCE if str(REPO) == "/repo" else (VERIF / "work" / "evidence_scratch")
     evdir.mkdir(parents=True, exist_ok=True)
@@ -637,7 +674,7 @@ def shrink(mod, case, obs, by_mismatch=False, max_steps=40):
         if by_mismatch:
             mm, errs = run_correspondence(mod, [c], [o])
             return bool(mm)
-        return bool(mod.monitor(c, o))
+        return bool(_monitor(mod, c, o))
 
     steps = 0
     improved = True
@@ -656,3 +693,27 @@ def shrink(mod, case, obs, by_mismatch=False, max_steps=40):
                 improved = True
                 break
     return case, obs
+
+
+
+def crash_report(pid, tier, seed, exc_text):
+    """The harness itself (or the import of the implementation) raised: the correspondence could not be established.
+    Reported as a violation without a failing input; the replay file holds the traceback."""
+    p = write_replay(pid, "correspondence-broken", {
+        "property": pid, "kind": "correspondence-broken", "case": None,
+        "relation_or_theorem": "the correspondence harness of %s could not run on this tree (exception below): "
+                               "model observation = implementation observation is not established" % pid,
+        "seed": seed, "traceback": exc_text[-6000:],
+    })
+    try:
+        evdir = EVIDENCE if str(REPO) == "/repo" else (VERIF / "work" / "evidence_scratch")
+        evdir.mkdir(parents=True, exist_ok=True)
+        (evdir / f"{pid}.json").write_text(json.dumps({
+            "property_id": pid, "tier": tier, "seed": seed, "level": "proof",
+            "coverage": {"evaluations": 0, "distinct_nontrivial": 0, "rule": "the run crashed before any case was judged",
+                         "samples": [], "explanation": exc_text[-1500:]},
+            "wall_s": 0.0, "violations": 1}, indent=1))
+    except Exception:  # noqa
+        pass
+    print(f"VIOLATION property={pid} replay={p} no-failing-input-found")
+    return 1
